@@ -5,7 +5,8 @@
    are chosen by the schedule entry, so "for all schedules" covers every data-dependent control flow and every effect. *)
 From Coq Require Import List ZArith Bool Permutation.
 From V Require Import Lib.Enc Gen.SafeKVSkel Model.SafeKV Model.SafeKVCalls Model.SafeKVHist Run.C12 Proofs.SafeKVCalls Proofs.SafeKVInv Proofs.SafeKVConc Proofs.SafeKVSeq Proofs.SafeKVSkelOk Proofs.SafeKVExec Proofs.SafeKVRun Proofs.SafeKVLin
-  Proofs.SafeKVLinearize Proofs.SafeKVLinearizeThm Proofs.SafeKVLinearizeCor Proofs.SafeKVLinearizeSnap Proofs.SafeKVLinearizeRun Proofs.SafeKVLinearizeLog.
+  Proofs.SafeKVLinearize Proofs.SafeKVLinearizeThm Proofs.SafeKVLinearizeCor Proofs.SafeKVLinearizeSnap Proofs.SafeKVLinearizeRun Proofs.SafeKVLinearizeLog
+  Lib.MapLang Gen.SafeKVCode Model.SafeKVCode Proofs.SafeKVCode.
 Import ListNotations.
 
 (* the skeletons extracted from the current mapz/safekv.go and mapz/iter.go obey the lock discipline (all of them, also
@@ -63,6 +64,29 @@ Print Assumptions c12_setx_never_creates.
 Theorem c12_exec_call_is_sem : forall c m, exec_call c m = Some (sem c m).
 Proof. exact exec_call_is_sem. Qed.
 Print Assumptions c12_exec_call_is_sem.
+(* CODE = MODEL for what the methods DO.  Gen/SafeKVCode.v is produced on every run by gen/safekv_code.go from the bodies of
+   Get, Has, Contains, Set, SetNx, SetX, Delete, Len, Clear, Keys and Values in mapz/safekv.go: every statement (comma-ok index,
+   if/else, index assignment, delete, len, make, range over the variadic keys, range over the map with append, return) dumped into the map-statement language of
+   Lib/MapLang.v, Go's scoping applied; Model/SafeKVCode.v gives that language its semantics on the model's map
+   ([run_method body args variadic_args map] = (map left, values returned)).  Each regenerated body equals the hand-written
+   specification [sem] - and therefore the interpreted skeleton [exec_call] - for ALL arguments and ALL maps (Values: up to the order of the returned slice, which
+   Go leaves unspecified and the specification sorts: [sort_out]).  The callback methods and GetWithMap (Range, All,
+   GetWithMap, GetWithLock, Map) are not translated; [translated c] = the calls with an exact equation. *)
+Theorem c12_code_is_model :
+  (forall k m, run_method code_Get [k] [] m = sem (CGet k) m) /\
+  (forall k m, run_method code_Has [k] [] m = sem (CHas k) m) /\
+  (forall k m, run_method code_Contains [k] [] m = sem (CContains k) m) /\
+  (forall k v m, run_method code_Set [k; v] [] m = sem (CSet k v) m) /\
+  (forall k v m, run_method code_SetNx [k; v] [] m = sem (CSetNx k v) m) /\
+  (forall k v m, run_method code_SetX [k; v] [] m = sem (CSetX k v) m) /\
+  (forall ks m, run_method code_Delete [] ks m = sem (CDelete ks) m) /\
+  (forall m, run_method code_Len [] [] m = sem CLen m) /\
+  (forall m, run_method code_Clear [] [] m = sem CClear m) /\
+  (forall m, run_method code_Keys [] [] m = sem CKeys m) /\
+  (forall m, let '(m', r) := run_method code_Values [] [] m in (m', sort_out r) = sem CValues m) /\
+  (forall c m, translated c = true -> code_effect c m = Some (sem c m) /\ code_effect c m = exec_call c m).
+Proof. exact code_is_model. Qed.
+Print Assumptions c12_code_is_model.
 Theorem c12_run_model_is_spec : forall cs m, run_model cs m = run_spec cs m.
 Proof. exact run_model_is_spec. Qed.
 Print Assumptions c12_run_model_is_spec.
